@@ -170,7 +170,7 @@ def run_check(pid, units, tier, seed, props_files=None, default_imports='', leve
                 distinct.add(json.dumps(c['impl'], sort_keys=True))
             mr, sr = mres[k], sres[k]
             if ir and ir[0] == 'HARNESS-ERROR':
-                mismatches.append({'unit': u.name, 'kind': 'harness', 'case': c['impl'], 'impl': ir})
+                mismatches.append({'unit': u.name, 'kind': 'harness', 'label': c.get('label'), 'case': c['impl'], 'impl': ir})
                 continue
             if ir == [9, 9]:
                 corr['off_domain'] += 1
@@ -179,13 +179,13 @@ def run_check(pid, units, tier, seed, props_files=None, default_imports='', leve
                 corr['model_unavailable'] += 1
             if mr is not None and mr != ir:
                 corr['impl_vs_model_disagreements'] += 1
-                mismatches.append({'unit': u.name, 'kind': 'impl-vs-model', 'case': c['impl'], 'impl': ir, 'model': mr,
+                mismatches.append({'unit': u.name, 'kind': 'impl-vs-model', 'label': c.get('label'), 'case': c['impl'], 'impl': ir, 'model': mr,
                                    'model_term': c['model']})
             if c['spec'] and sr is None:
                 corr['spec_unavailable'] = corr.get('spec_unavailable', 0) + 1
             if sr is not None and sr != ir:
                 corr['impl_vs_spec_disagreements'] += 1
-                mismatches.append({'unit': u.name, 'kind': 'impl-vs-spec', 'case': c['impl'], 'impl': ir, 'spec': sr,
+                mismatches.append({'unit': u.name, 'kind': 'impl-vs-spec', 'label': c.get('label'), 'case': c['impl'], 'impl': ir, 'spec': sr,
                                    'spec_term': c['spec']})
             if len(samples) < 6 and (corr['cases'] % 97 == 1):
                 samples.append({'unit': u.name, 'case': c['impl'], 'impl': ir, 'model': mr, 'spec': sr})
@@ -194,6 +194,8 @@ def run_check(pid, units, tier, seed, props_files=None, default_imports='', leve
     def is_known(unit, mm):
         for k in known:
             if k['kind'] == 'finding' and (k['unit'] in (None, unit)):
+                if k.get('label') and (mm is None or mm.get('label') != k['label']):
+                    continue      # a finding names the failing cases by label: anything else is still reported
                 return k
         return None
 
